@@ -168,10 +168,19 @@ def mode_rule(ctx, I):
 
 
 def path_rules(col, gcode, paths, I):
-    """R2 on the handler level: entering paths"""
+    """R2 on the handler level: entering paths, and the snapshot stays untouched while the episode is open"""
     declare(col)
     for p in paths:
         f = Facts(p, I)
+        if not f.raised and f.pre_excluding is True and f.post_excluding() is True:
+            col.instance('C03.R2', (gcode, 'inside', f.describe()))
+            for e in p.st.trace:
+                if e[0] == 'write' and (str(e[4]).startswith(LAST) or (e[1] == 'ExcludeRegionState' and e[2] == 'lastPosition')):
+                    col.report('C03.R2', e[5] if isinstance(e[5], str) and e[5] != 'merged' else 'ExcludeRegionState.processLinearMoves',
+                               'remembered position modified inside an episode (%s.%s)' % (str(e[4]).split('.')[-1], e[2]),
+                               'the position remembered at entry stands for where the printer physically is; nothing moves it '
+                               'while the episode is open, so it must not be rewritten by a suppressed command',
+                               detail={'entry': p.entry, 'decisions': f.decisions()})
         if f.raised or not (f.pre_excluding is False and f.post_excluding() is True):
             continue
         col.instance('C03.R2', (gcode, f.describe(), tuple(f.decisions()[-5:])))
